@@ -51,9 +51,35 @@ for p in $list; do
   find "$scratch/repo" -name '*.orig' -o -name '*.rej' | xargs rm -f 2>/dev/null
 done
 echo "positive controls: $fired of $total recorded breaking changes reported ($skipped not applicable to this tree)${missed:+; not reported:$missed}"
+
+# ---- neutral controls (report only): behaviour-preserving rewrites of the scratch copy must stay silent
+ntotal=0; nsilent=0; nalarm=""
+for np in "$V"/selftest/neutral/*.diff; do
+  [ -f "$np" ] || continue
+  patch -p1 -s -f -d "$scratch/repo" --dry-run < "$np" >/dev/null 2>&1 || continue
+  patch -p1 -s -f -d "$scratch/repo" < "$np" >/dev/null 2>&1
+  ntotal=$((ntotal+1))
+  if bin/gunyucheck -property "$id" -tier quick -verif "$scratch/verif" -repo "$scratch/repo" 2>/dev/null | grep -q "^VIOLATION property=$id"; then
+    nalarm="$nalarm $(basename "$np")"
+  else
+    nsilent=$((nsilent+1))
+  fi
+  patch -p1 -s -f -R -d "$scratch/repo" < "$np" >/dev/null 2>&1
+  find "$scratch/repo" -name '*.orig' -o -name '*.rej' | xargs rm -f 2>/dev/null
+done
+if [ -x bin/renamelocals ] && bin/renamelocals "$scratch/repo" >/dev/null 2>&1; then
+  ntotal=$((ntotal+1))
+  if bin/gunyucheck -property "$id" -tier quick -verif "$scratch/verif" -repo "$scratch/repo" 2>/dev/null | grep -q "^VIOLATION property=$id"; then
+    nalarm="$nalarm rename-every-local"
+  else
+    nsilent=$((nsilent+1))
+  fi
+fi
+echo "neutral controls: silent on $nsilent of $ntotal behaviour-preserving rewrites${nalarm:+; ALARMED ON:$nalarm}"
 if command -v jq >/dev/null 2>&1 && [ -f "$V/evidence/$id.json" ]; then
   jq --argjson t "$total" --argjson f "$fired" --argjson s "$skipped" --arg m "$missed" \
-     '.coverage.positive_controls = {applied: $t, reported: $f, skipped_not_applicable: $s, not_reported: $m, note: "each control is a recorded breaking change (selftest/mutants, seeded/) applied to a scratch copy of /repo; report only, never part of the verdict"}' \
+     --argjson nt "$ntotal" --argjson ns "$nsilent" --arg na "$nalarm" \
+     '.coverage.positive_controls = {applied: $t, reported: $f, skipped_not_applicable: $s, not_reported: $m, note: "each control is a recorded breaking change (selftest/mutants, seeded/) applied to a scratch copy of /repo; report only, never part of the verdict"} | .coverage.neutral_controls = {applied: $nt, silent: $ns, alarmed_on: $na, note: "behaviour-preserving rewrites of a scratch copy (selftest/neutral patches; every local variable, parameter and result renamed): the rules must stay silent; report only"}' \
      "$V/evidence/$id.json" > "$scratch/ev.json" && cp "$scratch/ev.json" "$V/evidence/$id.json"
 fi
 exit $rc
